@@ -789,7 +789,7 @@ class Sim:
         eff = self.jobs
         if self.resub and self.epoch > 0:
             eff = {n: dict(j, blocked_by=self.cur_blockers(n)) for n, j in self.jobs.items()}
-        oracle_batch.check_batch(eff, self.groups, names, cfg, txt, run, script, self.outname, finished if not self.rows_unknown else None, lambda k, t: self.viol("C07", k, t))
+        oracle_batch.check_batch(eff, self.groups, names, cfg, txt, run, script, self.outname, finished if not self.rows_unknown else None, lambda k, t: self.viol(self.scen.get("script_prop", "C07") if k in ("hpc-params", "script-last-line", "script-without-srun", "run-options", "run-script") else "C07", k, t))
         if inj == "garbage":
             if r is not None:
                 r["sb_fail"] += 1
